@@ -193,6 +193,31 @@ func bbGenQueries(r *rand.Rand, t *Table, n int) []bbQuery {
 		bbQuery{cond: &Node{Op: "AND", L: mk("ka", "LIKE", Lit{Kind: tString, S: "a%"}), R: mk("ki", "=", Lit{Kind: tInt, I: 1})}, mode: "like"},
 		bbQuery{cond: &Node{Op: "AND", L: &Node{Op: "AND", L: mk("kf", ">", Lit{Kind: tFloat, F: 0}), R: mk("ki", ">", Lit{Kind: tInt, I: 0})}, R: mk("ka", ">", Lit{Kind: tString, S: "a"})}, mode: "plain"},
 	)
+	// full-primary-key point queries (and one-atom-negated variants) built from written rows,
+	// for the three-column keys (ki,kf,kb) and (kf,ki,ka)
+	for k := 0; k < 12 && len(t.Rows) > 0; k++ {
+		row := t.Rows[r.IntN(len(t.Rows))]
+		ki := mk("ki", "=", Lit{Kind: tInt, I: row.V[2].I})
+		kf := mk("kf", "=", Lit{Kind: tFloat, F: row.V[3].F})
+		third, idx := "kb", 1
+		if k%2 == 1 {
+			third, idx = "ka", 0
+		}
+		ks := mk(third, "=", Lit{Kind: tString, S: row.V[idx].S})
+		if k%3 == 2 {
+			o := t.Rows[r.IntN(len(t.Rows))]
+			if o.V[3].F != row.V[3].F {
+				kf = mk("kf", "!=", Lit{Kind: tFloat, F: o.V[3].F})
+			}
+		}
+		var cond *Node
+		if k%2 == 1 {
+			cond = &Node{Op: "AND", L: &Node{Op: "AND", L: kf, R: ki}, R: ks}
+		} else {
+			cond = &Node{Op: "AND", L: ki, R: &Node{Op: "AND", L: kf, R: ks}}
+		}
+		qs = append(qs, bbQuery{cond: cond, mode: "point"})
+	}
 	for len(qs) < n {
 		mode := "plain"
 		switch x := r.IntN(20); {
